@@ -100,6 +100,8 @@ def extreme_probe(ctx, n: int) -> None:
 
 
 def run(ctx) -> None:
+    import context_probes as CP
+    CP.diag_history_probe(ctx, "C11", ctx.n(12, 300))
     extreme_probe(ctx, ctx.n(30, 600))
     run_screen_correspondence(ctx, "C11", ctx.n(40, 500))
     if F is not None:
@@ -107,6 +109,9 @@ def run(ctx) -> None:
 
 
 def corpus_case(ctx, r: dict) -> None:
+    if r.get("kind") == "diag_history":
+        import context_probes as CP
+        return CP.diag_history_case(ctx.report, "C11", r)
     if r.get("kind") == "extreme":
         return extreme_case(ctx.report, r)
     if F is not None and hasattr(F, "corpus_case"):
